@@ -133,6 +133,7 @@ type Engine struct {
 	AbstractConc bool      // go statements ignored, channels opaque (constructor postconditions only)
 	OwnCheck     bool      // ownership discipline of deep copies (C17)
 	ShareCheck   bool      // sharing discipline of codecs (C18)
+	UseTokens    bool      // token view of streams (tokens.go), opted into by the contract under verification
 	selectRole   map[int]string // array reads produced by wbyte ("w") / rbyte ("r") in contracts
 	Share        *shareInfo
 	ownAlloc0    *smt.Term // allocation counter at entry
@@ -397,6 +398,7 @@ func (e *Engine) allocCell(st *State, t types.Type) Val {
 		e.ghostSet(st, gCount, ref, e.C.BVLit64(0, 64))
 		e.ghostSet(st, gPos, ref, e.C.BVLit64(0, 64))
 		e.ghostSet(st, pAvail, ref, e.C.BVLit64(0, 64))
+		e.tokFresh(st, ref)
 	}
 	return p
 }
